@@ -307,6 +307,15 @@ func cmdReplay(args []string) int {
 	if m := regexp.MustCompile(`pkg=(\S+)`).FindStringSubmatch(head[:nl]); m != nil {
 		pkg = m[1]
 	}
+	if m := regexp.MustCompile(`run=(\S+)`).FindStringSubmatch(head[:nl]); m != nil {
+		out, _ := runOverlayTest(*repo, pkg, head[nl+1:], m[1], "thorough")
+		fmt.Println(out)
+		if strings.Contains(out, "BOUNDED-FAIL") {
+			fmt.Printf("VIOLATION property=%s replay=%s\n", *prop, *file)
+			return 1
+		}
+		return 0
+	}
 	out, verdict := runReplayTest(*repo, pkg, head[nl+1:])
 	fmt.Println(out)
 	fmt.Printf("replay verdict: %s\n", verdict)
@@ -427,6 +436,121 @@ func typeNameOf(t types.Type) string {
 	return types.TypeString(t, func(p *types.Package) string { return p.Name() })
 }
 
+// runBounded executes the bounded stand-ins of a property
+// (/verif/bounded/<prop>_*_test.go.tmpl): Go tests of package ice injected with
+// -overlay that enumerate a finite domain on the REAL code. They are reported
+// under coverage.bounded with their bound and are never counted as obligations.
 func runBounded(repo, verif, dir, prop, tier string, known []KnownFinding, out *[]map[string]any) int {
-	return 0
+	files, _ := filepath.Glob(filepath.Join(verif, "bounded", prop+"_*_test.go.tmpl"))
+	violations := 0
+	for _, f := range files {
+		data, err := os.ReadFile(f)
+		if err != nil {
+			continue
+		}
+		t0 := time.Now()
+		text, verdict := runOverlayTest(repo, ".", string(data), "TestVerifBounded", tier)
+		cases, distinct := 0, 0
+		var fails []string
+		for _, l := range strings.Split(text, "\n") {
+			l = strings.TrimSpace(l)
+			if strings.HasPrefix(l, "BOUNDED-CASES") {
+				fmt.Sscanf(l, "BOUNDED-CASES %d distinct %d", &cases, &distinct)
+			}
+			if strings.HasPrefix(l, "BOUNDED-FAIL") {
+				fails = append(fails, strings.TrimPrefix(l, "BOUNDED-FAIL "))
+			}
+		}
+		var unknownFails, knownHits []string
+		for _, fl := range fails {
+			matched := false
+			for i := range known {
+				k := &known[i]
+				if k.Status == "known" && k.Property == prop && k.Bounded != "" && strings.Contains(fl, k.Bounded) {
+					matched = true
+					knownHits = append(knownHits, k.What)
+				}
+			}
+			if !matched {
+				unknownFails = append(unknownFails, fl)
+			}
+		}
+		seen := map[string]bool{}
+		for _, k := range knownHits {
+			if !seen[k] {
+				seen[k] = true
+				fmt.Printf("KNOWN-FINDING: property=%s %s [bounded stand-in %s]\n", prop, k, filepath.Base(f))
+			}
+		}
+		entry := map[string]any{"stand_in": filepath.Base(f), "label": "bounded (executed on the real code; not a proof, not counted in obligations)", "cases": cases, "distinct_texts": distinct,
+			"failures": len(unknownFails), "known_finding_cases": len(fails) - len(unknownFails), "wall_s": round3(time.Since(t0).Seconds()), "bound": boundOf(string(data))}
+		*out = append(*out, entry)
+		_ = verdict
+		if cases == 0 {
+			violations++
+			p := filepath.Join(dir, prop+"_bounded_"+sanitizeFile(filepath.Base(f))+".txt")
+			os.WriteFile(p, []byte("bounded stand-in could not run (does the tree compile?)\n"+truncate(text, 6000)), 0o644)
+			fmt.Printf("VIOLATION property=%s replay=%s no-failing-input-found\n", prop, p)
+			continue
+		}
+		if len(unknownFails) > 0 {
+			violations++
+			p := filepath.Join(dir, prop+"_bounded_"+sanitizeFile(filepath.Base(f))+".txt")
+			var b strings.Builder
+			fmt.Fprintf(&b, "property: %s\nbounded stand-in: %s\nfailing cases (first 40):\n", prop, f)
+			for i, fl := range unknownFails {
+				if i >= 40 {
+					break
+				}
+				b.WriteString("  " + fl + "\n")
+			}
+			fmt.Fprintf(&b, "\nreplay command: ./check %s --replay %s\n//REPLAY-BEGIN pkg=. run=TestVerifBounded\n%s\n//REPLAY-END\n", prop, p, string(data))
+			os.WriteFile(p, []byte(b.String()), 0o644)
+			fmt.Printf("VIOLATION property=%s replay=%s\n", prop, p)
+			fmt.Printf("  bounded stand-in %s: %d failing case(s), e.g. %s\n", filepath.Base(f), len(unknownFails), truncate(unknownFails[0], 300))
+		}
+	}
+	return violations
+}
+
+func boundOf(src string) string {
+	var b []string
+	on := false
+	for _, l := range strings.Split(src, "\n") {
+		if strings.Contains(l, "Bound:") {
+			on = true
+		}
+		if on {
+			if !strings.HasPrefix(l, "//") {
+				break
+			}
+			b = append(b, strings.TrimSpace(strings.TrimPrefix(l, "//")))
+		}
+	}
+	return strings.Join(b, " ")
+}
+
+// runOverlayTest injects src as zz_verif_bounded_test.go of package dir pkg and runs one test.
+func runOverlayTest(repo, pkg, src, run, tier string) (string, string) {
+	tmp, err := os.MkdirTemp("", "govc-bounded-")
+	if err != nil {
+		return err.Error(), "error"
+	}
+	defer os.RemoveAll(tmp)
+	testFile := filepath.Join(tmp, "zz_verif_bounded_test.go")
+	os.WriteFile(testFile, []byte(src), 0o644)
+	target := filepath.Join(repo, pkg, "zz_verif_bounded_test.go")
+	ov, _ := json.Marshal(map[string]any{"Replace": map[string]string{target: testFile}})
+	ovFile := filepath.Join(tmp, "ov.json")
+	os.WriteFile(ovFile, ov, 0o644)
+	ctx, cancel := context.WithTimeout(context.Background(), 600*time.Second)
+	defer cancel()
+	cmd := exec.CommandContext(ctx, "go", "test", "-overlay", ovFile, "-vet=off", "-count=1", "-v", "-timeout", "300s", "-run", run, ".")
+	cmd.Dir = filepath.Join(repo, pkg)
+	cmd.Env = append(os.Environ(), "GOFLAGS=-mod=mod", "GOPROXY=off", "VERIF_TIER="+tier)
+	outb, err := cmd.CombinedOutput()
+	if err != nil {
+		return string(outb), "fail"
+	}
+	return string(outb), "ok"
 }
